@@ -206,6 +206,7 @@ type tr struct {
 	inDefer bool
 	touched map[*Var]bool
 	qcount int
+	escaped map[types.Object]bool // locals living in a heap cell (address taken)
 	captured []capturedVar
 	rangeColl map[int]Term
 	calledResults []Term
@@ -251,6 +252,13 @@ func (t *tr) read(v *Var) Term           { return v.at(t.cur.Env[v]) }
 
 // fresh gives v a new version in the current block and returns it.
 func (t *tr) fresh(v *Var) Term {
+	prev := t.cur.Env[v]
+	defer func() {
+		// inside a guarded (short-circuit) expression a new version only differs from the old one when the guard holds
+		if len(t.guard) > 0 {
+			t.emit(PStmt{F: implies(not(t.guardTerm()), eq(v.at(t.cur.Env[v]), v.at(prev))).S})
+		}
+	}()
 	v.next++
 	n := v.next
 	t.cur.Env[v] = n
